@@ -34,6 +34,11 @@ class Site:
     seq: object = None         # dict(base=IR, body_ok=bool, minus=IR|None, raw=IR)
     problems: list = field(default_factory=list)   # [(severity, code, msg)]
     text: str = ""
+    rowbase: object = None
+    role: object = None
+    entity: object = None
+    value: object = None
+    colbase: object = None
 
     @property
     def line(self):
@@ -240,12 +245,23 @@ class OdeModel:
             role = None
             if s.row and s.row[0] == "species":
                 b = match(("elem", ("attr", ent, V("role")), V("L")), s.row[1])
+                bf = match(("elem", ("filtered", ("attr", ent, V("role")), V("fbv"), V("fifs")), V("L")), s.row[1])
                 if b and b["role"] in ("reactants", "products") and b["L"] in loops:
                     role = b["role"]
                     s.rowloop = b["L"]
-                else:
+                    s.rowbase = ("attr", ent, role)
+                elif bf and bf["role"] in ("reactants", "products") and bf["L"] in loops:
+                    role = bf["role"]
+                    s.rowloop = bf["L"]
+                    z = ("bv", "_", 0)
+                    s.rowbase = ("filtered", ("attr", ent, role), tuple(simp(subst(c, {bf["fbv"]: z})) for c in bf["fifs"]))
                     s.problems.append(("viol", "row-domain",
-                                       f"row does not range over the reaction's own reactant/product list: {show(s.row[1])}"))
+                                       f"rows range over a filtered {role} list (some occurrences get no term): "
+                                       + "; ".join(show(c)[:80] for c in bf["fifs"])))
+                else:
+                    s.rowbase = ("other", s.row[1])
+                    s.problems.append(("viol", "row-domain",
+                                       f"row does not range over the reaction's own reactant/product list: {show(s.row[1])[:160]}"))
             elif s.row:
                 s.problems.append(("viol", "row", "reaction term stored into the temperature row"))
             s.kind = {"reactants": "loss", "products": "gain", None: "loss"}[role]
@@ -274,7 +290,10 @@ class OdeModel:
             fresh = inner[0] in ("copy", "comp", "list") or \
                 (inner[0] == "sub" and inner[2][0] == "slice") or \
                 (inner[0] == "call" and inner[1] == ("global", "list"))
-            if contains(inner, lambda t: isinstance(t, tuple) and t and t[0] in ("carried", "after")):
+            if inner[0] == "aliased":
+                s.problems.append(("viol", "no-copy", f"factor removed through the alias `{inner[2]}` of the shared factor list, not from a fresh copy"))
+                inner = inner[1]
+            elif contains(inner, lambda t: isinstance(t, tuple) and t and t[0] in ("carried", "after")):
                 s.problems.append(("viol", "copy-hoisted", "the list a factor is removed from is carried across loop iterations "
                                                            "(copy made outside the innermost loop): removals accumulate"))
             elif not fresh:
@@ -318,11 +337,17 @@ class OdeModel:
                     else:
                         s.colloop = b["L"]
                 else:
-                    if not b or b["L"] not in loops:
-                        s.problems.append(("viol", "col-domain", f"column does not range over the dependency list: {show(colvar)}"))
+                    bx = match(Y(V("x")), body)
+                    hit = None
+                    if bx:
+                        for lid in loops:
+                            if colvar == simp(subst(bx["x"], {bv: ("elem", base, lid)})):
+                                hit = lid
+                    if hit is None:
+                        s.problems.append(("viol", "col-domain", f"column does not range over the dependency list of this term (with multiplicity): {show(colvar)[:100]}"))
                     else:
-                        s.colloop = b["L"]
-                        s.colbase = b["B"]
+                        s.colloop = hit
+                        s.colbase = base
             if colvar is not None:
                 want = simp(subst(body, {bv: colvar})) if kind != "mod" else None
                 if kind != "mod" and minus != want:
